@@ -1,0 +1,58 @@
+//go:build verif
+// +build verif
+
+package caching
+
+// Exports for the verification harness (/verif). Add-only; compiled only with -tags verif.
+
+import (
+	"net/http"
+	"time"
+)
+
+func VerifEncodeStorageMetadata(sm StorageMetadata) []byte { return encodeStorageMetadata(sm) }
+
+func VerifDecodeStorageMetadata(b []byte) (StorageMetadata, error) { return decodeStorageMetadata(b) }
+
+func VerifContentLengthFromRange(s string) string { return contentLengthFromRange(s) }
+
+func VerifNormalizeEtag(s string) string { return normalizeEtag(s) }
+
+// VerifDirectives exposes the unexported fields of CacheControlDirectives.
+func VerifDirectives(h http.Header) (d CacheControlDirectives, staleIfError *int64, staleWhileRevalidate *int64, vary []string) {
+	d = GetCacheControlDirectives(h)
+	return d, d.staleIfError, d.staleWhileRevalidate, d.vary
+}
+
+// VerifWaitIdle blocks until no cache key is locked (all Finish notifications processed),
+// or the timeout expires. It reports whether the cache became idle.
+func VerifWaitIdle(c Cache, timeout time.Duration) bool {
+	cc, ok := c.(*cache)
+	if !ok {
+		return true
+	}
+	deadline := time.Now().Add(timeout)
+	for {
+		cc.waitingReadersLock.Lock()
+		n := len(cc.waitingReaders)
+		cc.waitingReadersLock.Unlock()
+		if n == 0 {
+			return true
+		}
+		if time.Now().After(deadline) {
+			return false
+		}
+		time.Sleep(50 * time.Microsecond)
+	}
+}
+
+// VerifLockedKeys reports how many cache keys are currently locked.
+func VerifLockedKeys(c Cache) int {
+	cc, ok := c.(*cache)
+	if !ok {
+		return 0
+	}
+	cc.waitingReadersLock.Lock()
+	defer cc.waitingReadersLock.Unlock()
+	return len(cc.waitingReaders)
+}
